@@ -336,6 +336,48 @@ def seeded_variants() -> list[dict]:
     return out
 
 
+def refactor_variants() -> list[dict]:
+    """Behaviour-preserving refactorings under /verif/refactors/<id>/ (confirmed: suite baseline, demo passes)."""
+    import pathlib
+
+    root = pathlib.Path(__file__).resolve().parent.parent / "refactors"
+    out = []
+    if not root.is_dir():
+        return out
+    for d in sorted(root.iterdir()):
+        pf = d / "patch.diff"
+        if pf.exists():
+            out.append({"id": f"refactors/{d.name}", "diff": pf.read_text()})
+    return out
+
+
+def _run_refactor(args):
+    """A refactoring must never make an obligation VIOLATED; UNDECIDED is recorded, not an error."""
+    rv, files, prop = args
+    from . import props  # noqa: F401
+    from .model import AnalysisError, Model
+    from .report import REGISTRY, Cx, evaluate
+
+    new_files = apply_unified_diff(files, rv["diff"])
+    if new_files is None:
+        return {"id": rv["id"], "kind": "refactoring", "props": [prop or "ALL"], "status": "not-applicable", "detail": "patch does not fit the current tree"}
+    try:
+        model = Model(new_files)
+    except AnalysisError as e:
+        return {"id": rv["id"], "kind": "refactoring", "props": [prop or "ALL"], "status": "not-applicable", "detail": e.reason}
+    bad, und = {}, {}
+    for p in ([prop] if prop else sorted(REGISTRY)):
+        for o in evaluate(p, Cx(model, "quick")):
+            if o.status == "VIOLATED":
+                bad[o.id] = [f.key for f in o.findings]
+            elif o.status == "UNDECIDED":
+                und[o.id] = o.undecided_reasons[:1]
+    r = {"id": rv["id"], "kind": "refactoring", "props": [prop or "ALL"], "obligations": {"violated": bad, "undecided": und}, "status": "UNMET" if bad else "met"}
+    if bad:
+        r["unmet"] = [f"{prop or 'ALL'}: false alarm on a behaviour-preserving refactoring: {bad}"]
+    return r
+
+
 def _run_seeded(args):
     sv, files = args
     from . import props  # noqa: F401
@@ -409,11 +451,12 @@ def run_matrix(prop: str | None, jobs: int | None = None):
     args = [(v.id, files) for v in todo]
     seeded = [sv for sv in seeded_variants() if prop is None or sv["prop"] == prop]
     sargs = [(sv, files) for sv in seeded]
-    if len(todo) + len(seeded) <= 2 or jobs <= 1:
-        results = [_run_one(a) for a in args] + [_run_seeded(a) for a in sargs]
+    rargs = [(rv, files, prop) for rv in refactor_variants()]
+    if jobs <= 1:
+        results = [_run_one(a) for a in args] + [_run_seeded(a) for a in sargs] + [_run_refactor(a) for a in rargs]
     else:
         with ProcessPoolExecutor(max_workers=jobs) as ex:
-            results = list(ex.map(_run_one, args, chunksize=2)) + list(ex.map(_run_seeded, sargs, chunksize=1))
+            results = list(ex.map(_run_one, args, chunksize=2)) + list(ex.map(_run_seeded, sargs, chunksize=1)) + list(ex.map(_run_refactor, rargs, chunksize=1))
     if prop is not None:
         # restrict reporting to this property's part of each variant
         for r in results:
@@ -432,6 +475,8 @@ def run_matrix(prop: str | None, jobs: int | None = None):
             "variants_total": len(results),
             "breaking": sum(1 for r in results if r["kind"] == "breaking"),
             "benign_twins": sum(1 for r in results if r["kind"] == "benign"),
+            "refactorings": sum(1 for r in results if r["kind"] == "refactoring"),
+            "refactorings_undecided": sorted(r["id"] for r in results if r["kind"] == "refactoring" and r.get("obligations", {}).get("undecided")),
             "met": sum(1 for r in results if r["status"] == "met"),
             "unmet": [r["id"] for r in unmet],
             "not_applicable": [r["id"] for r in na],
